@@ -5,6 +5,7 @@ package verifharness
 import (
 	"bytes"
 	"fmt"
+	"reflect"
 	"strings"
 
 	"github.com/cockroachdb/redact"
@@ -51,9 +52,38 @@ func place(p string, v interface{}) interface{} {
 		return StructA{X: v}
 	case "Map":
 		return map[string]interface{}{"k": v}
+	// a reflect.Value operand stands for the value it holds: the wrapper
+	// directly, or an interface-typed slot holding the wrapper
+	case "RV":
+		return reflect.ValueOf(v)
+	case "RVIface":
+		x := v
+		return reflect.ValueOf(&x).Elem()
+	case "RVField":
+		return reflect.ValueOf(StructA{X: v}).Field(0)
+	case "RVIndex":
+		return reflect.ValueOf([]interface{}{v}).Index(0)
 	}
 	return v
 }
+
+// fmtReference: what fmt prints for x at the place.
+func fmtReference(p, d string, dir *Directive, x interface{}) printResult {
+	switch {
+	case p == "Top":
+		return callFmt("Sprintf", d, []interface{}{x})
+	case strings.HasPrefix(p, "RV"):
+		r := callFmt("Sprintf", d, []interface{}{[]interface{}{x}})
+		o, c, _ := containerGlue("Slice", dir)
+		if !r.panicked && bytes.HasPrefix(r.out, []byte(o)) && bytes.HasSuffix(r.out, []byte(c)) && len(r.out) >= len(o)+len(c) {
+			r.out = r.out[len(o) : len(r.out)-len(c)]
+		}
+		return r
+	}
+	return callFmt("Sprintf", d, []interface{}{place(p, x)})
+}
+
+func topLike(p string) bool { return p == "Top" || strings.HasPrefix(p, "RV") }
 
 // isClassified: x has a classification of its own or re-enters the printer.
 func isClassified(v *Val) bool {
@@ -88,7 +118,7 @@ func containerGlue(p string, d *Directive) (string, string, bool) {
 	sharp := string(d.Verb) == "v" && strings.Contains(d.Flags, "#")
 	plus := string(d.Verb) == "v" && strings.Contains(d.Flags, "+")
 	switch p {
-	case "Top":
+	case "Top", "RV", "RVIface", "RVField", "RVIndex":
 		return "", "", true
 	case "Slice":
 		if sharp {
@@ -125,6 +155,15 @@ func checkC06(s *C06Spec) Result {
 		return res
 	}
 	fmtCompat := isFmtCompatVal(s.X)
+	if strings.HasPrefix(s.Place, "RV") {
+		// the wrapper's content is printed as a nested value there (pointers
+		// show as addresses, nil as <nil> under every verb): the reference is
+		// what fmt prints for x as the element of a slice. A reflect.Value
+		// inside is not looked through: no comparison with fmt.
+		if hasKind(s.X, map[string]bool{"rv": true, "rvzero": true, "rvfield": true, "rvfieldr": true, "rviface": true}) {
+			fmtCompat = false
+		}
+	}
 	verb := string(s.Dir.Verb)
 	noTPW := verb != "T" && verb != "p" && verb != "w"
 
@@ -145,6 +184,14 @@ func checkC06(s *C06Spec) Result {
 	}
 	if !LS(got.out) {
 		return fail("output %s not line-safe", q(got.out))
+	}
+	if strings.HasPrefix(s.Place, "RV") && s.Place != "RV" && verb != "p" {
+		// a reflect.Value designating an interface-typed slot stands for the
+		// value in the slot, like one made from the value directly
+		direct := callRedact("Sprintf", d, []interface{}{place("RV", wrapChain(s.Chain, x))})
+		if direct.panicked || !bytes.Equal(direct.out, got.out) {
+			return fail("prints %s, but %s for reflect.ValueOf of the same wrapper", q(got.out), q(direct.out))
+		}
 	}
 	open, close, glueKnown := containerGlue(s.Place, s.Dir)
 	if strings.HasPrefix(s.Place, "AfterSafe") && s.Chain[0] == "unsafe" && noTPW {
@@ -183,16 +230,19 @@ func checkC06(s *C06Spec) Result {
 			// %T prints the type: public by design
 		}
 		// U2: the characters are those fmt prints for x
-		if fmtCompat && s.Place == "Top" && noTPW && !s.HasHook {
-			want := callFmt("Sprintf", d, []interface{}{x})
+		if fmtCompat && topLike(s.Place) && noTPW && !s.HasHook {
+			want := fmtReference(s.Place, d, s.Dir, x)
 			if !want.panicked && !(bytes.Contains(want.out, []byte("(PANIC=")) && s.Dir.hasWP()) {
 				if g, w := strip(got.out), esc(want.out); !bytes.Equal(g, w) {
 					return fail("prints %s (stripped %s); fmt prints %s for x", q(got.out), q(g), q(w))
 				}
 			}
 		}
-		// H: the hook is bypassed
-		if s.HasHook {
+		// H: the hook is bypassed (a Format method that makes a print call of
+		// its own with the package-level Fprint/Fprintf starts an independent
+		// call, which knows nothing of the wrapper: its output lands in the
+		// envelope as bytes written to the fmt.State)
+		if s.HasHook && !hasOpKind(s.X, "RFprintf") && !hasOpKind(s.X, "RFprint") {
 			if hookCalls != 0 {
 				return fail("the error hook was called under Unsafe()")
 			}
@@ -209,7 +259,7 @@ func checkC06(s *C06Spec) Result {
 				return fail("output %s contains an envelope", q(got.out))
 			}
 			if noTPW && glueKnown {
-				want := callFmt("Sprintf", d, []interface{}{place(s.Place, x)})
+				want := fmtReference(s.Place, d, s.Dir, x)
 				if !want.panicked && !(bytes.Contains(want.out, []byte("(PANIC=")) && s.Dir.hasWP()) {
 					if w := esc(want.out); !bytes.Equal(got.out, w) {
 						return fail("prints %s; fmt prints %s for x", q(got.out), q(w))
